@@ -3,4 +3,5 @@ Require Extraction.
 Require Import ExtrOcamlBasic.
 Definition src_copy (amb m : msg) : observation := obs (copy_msg_with src_copy_cfg amb m).
 Definition src_copy_complete : bool := copy_ok src_copy_cfg.
-Extraction "async_model.ml" accept_async accepted_prefix x0 src_copy src_copy_complete.
+Definition src_time_sources : bool * bool := (tsrc_is_message src_time_process, tsrc_is_message src_time_boot).
+Extraction "async_model.ml" accept_async accepted_prefix x0 src_copy src_copy_complete src_time_sources render_rel.
